@@ -93,6 +93,15 @@ def c14_term(fam, t, st: Stats):
     for k in range(nv + 1):
         for sup in itertools.combinations(vs, k):
             complete = len(sup) == nv
+            if not complete:
+                # the supplied coordinates are also tried at 0 (a factor that vanishes must not hide the missing one)
+                for zv in (0, 0.0):
+                    envz = {name: zv for name in sup}
+                    oz = A.outcome(lambda: A.build(t).at(pt(envz)))
+                    st.inc("transitions")
+                    if oz[0] == "val":
+                        st.violation(case(t, envz, "tree", "at(Point)", "CoordinateMissing (or DomainError)", oz,
+                                          f"point lacks {sorted(set(vs) - set(sup))} but evaluation -> {oz}"))
             for extra in (False, True):
                 env = {name: VAL for name in sup}
                 if extra:
